@@ -27,7 +27,7 @@ CLAIMED.update({
     "C12": sim("Monitor row = TrueRow(state at the beginning of the step) and one row per step, in the spec and for every row of every real execution."),
     "C13": sim("History of logged entries in the spec must contain each life-cycle entry exactly once, causally ordered; in real executions every emitted entry must reach the log exactly once (no loss, no duplicate) and the final log must have the stated structure."),
     "C15": sim("Delay flag and DELAYED report clauses with injected per-task delays; DelayModel call records validated by TLC against the call contract."),
-    "C17": sim("Claim machine = planned machine for every assignment of tasks to machines (W family) and on real plan-following executions with a harness static planner."),
+    "C17": sim("Claim machine = planned machine for every assignment of tasks to machines (W family: one observation; G family: two observations contending for the planned machines) and on real plan-following executions with a harness static planner."),
     "C19": sim("Query truthfulness as invariant over every reachable spec state and over the five query results logged after every real event."),
 })
 
@@ -37,7 +37,7 @@ def comp(text, tech):
 
 
 CLAIMED.update({
-    "C10": comp("The same configuration is executed in separate interpreter processes under different PYTHONHASHSEED values (and twice in-process); TLC (spec/TraceEq.tla) requires the state after every event, the per-timestep table, the task table and the event log to be identical. At design level TLC checks on the A and W families that which tasks an allocation round serves is a function of the state.",
+    "C10": comp("The same configuration is executed in separate interpreter processes under different PYTHONHASHSEED values (and twice in-process); TLC (spec/TraceEq.tla) requires the state after every event, the per-timestep table, the task table and the event log to be identical. At design level TLC checks on the A, W and G families that which tasks an allocation round serves is a function of the state.",
                  "TLC equality refinement of paired real executions (TraceEq) + TLC invariant I_C10_det on MC_Sim"),
     "C11": comp("The specification contains start(k)/resume(u) as explicit pause/resume steps; TLC checks on the S family that they are invisible (core state and effective log unchanged) and that the log is complete and duplicate-free whatever the pause points. Real executions interrupted at every k (and random multi-splits) must coincide event by event and in all outputs with the uninterrupted execution (TraceEq), each interrupted trace is validated against the specification, and refused calls must raise and change nothing.",
                  "TLC action property A_C11 on MC_Sim family S + TLC equality refinement of paired real executions (TraceEq) + trace validation of interrupted runs"),
